@@ -18,6 +18,10 @@ def State.isActive (st : State) (sid : Nat) : Bool := st.table.any (·.1 == sid)
 def State.finish (st : State) (sid : Nat) : State :=
   { st with table := st.table.filter (·.1 != sid), cache := st.cache.filter (·.1 != sid) }
 
+/-- `StreamControl.finish_stream` alone (as `stop_all_streams` calls it): the table entry only -/
+def State.unregister (st : State) (sid : Nat) : State :=
+  { st with table := st.table.filter (·.1 != sid) }
+
 /-- `_register_stream`: a new handler object, registered under `sid` (replacing any entry) -/
 def State.register (st : State) (s : Stream) : State × Nat :=
   let oid := st.heap.length
@@ -176,6 +180,7 @@ def apiStep (st : State) : Ev → State × List Out
         | _ => (st, [])
       else (st, [])
     | none => (st, [])
+  | .fnfSent sid => (st.finish sid, [])
   | _ => (st, [])
 
 /-! ### received frames -/
@@ -237,7 +242,8 @@ def frameReceived (st : State) (oid : Nat) (s : Stream) (f : Frame) : State × L
   | .stReq =>
     match f.ty with
     | .payload =>
-      if !s.subscribed then (st, [.send (mkError f.sid cApplicationError)])    -- AttributeError: no subscriber yet
+      if !s.subscribed then                                                    -- AttributeError: no subscriber yet
+        (st, if f.next || f.complete then [.send (mkError f.sid cApplicationError)] else [])
       else
         let outs := if f.next then [.onNext oid f.data f.complete] else if f.complete then [.onComplete oid] else []
         (if f.complete then st.finish s.sid else st, outs)
@@ -363,23 +369,27 @@ def recvStep (st : State) (f : Frame) (b : Behaviour) : State × List Out :=
 
 def stopOne (st : State) (sid oid : Nat) : State × List Out :=
   match st.obj oid with
-  | none => (st.finish sid, [])
+  | none => (st.unregister sid, [])
   | some s =>
     match s.kind with
-    | .rrReq =>
+    | .rrReq =>                       -- synthetic ERROR: future failed if pending, `_finish_stream()`
       let s' := { s with responseReceived := true }
       if s.fut == .pending then ((st.setObj oid { s' with fut := .err, cb := true }).finish sid, [.futError oid cConnectionError])
       else ((st.setObj oid s').finish sid, [])
-    | .stReq => (st.finish sid, if s.subscribed then [.onError oid cConnectionError] else [])
-    | .rrResp =>
-      if s.fut == .pending then ((st.setObj oid { s with fut := .cancelled, cb := true }).finish sid, [.hfCancel oid])
-      else (st.finish sid, [])
-    | .stResp => (st.finish sid, if s.hasPub then [.pubCancel oid] else [])
-    | .chReq =>
-      let o1 : List Out := if !s.recvComplete && s.subscribed then [.onError oid cConnectionError] else []
-      let s' := { s with recvComplete := true }
-      ((st.setObj oid s').finish sid, o1 ++ (if s.hasPub then [.pubCancel oid] else []))
-    | .chResp => (st.finish sid, if s.hasPub then [.pubCancel oid] else [])
+    | .stReq =>                       -- synthetic ERROR: `on_error` + `_finish_stream()`; without a subscriber it raises (caught)
+      if s.subscribed then (st.finish sid, [.onError oid cConnectionError]) else (st.unregister sid, [])
+    | .rrResp =>                      -- `dispose()`: cancel the handler's future
+      if s.fut == .pending then ((st.setObj oid { s with fut := .cancelled, cb := true }).unregister sid, [.hfCancel oid])
+      else (st.unregister sid, [])
+    | .stResp => (st.unregister sid, if s.hasPub then [.pubCancel oid] else [])
+    | .chReq =>                       -- synthetic ERROR (ignored once the receiving direction is closed), then `dispose()`
+      let o2 : List Out := if s.hasPub then [.pubCancel oid] else []
+      if !s.recvComplete && s.subscribed then
+        let st' := st.setObj oid { s with recvComplete := true }
+        if s.sentComplete then (st'.finish sid, [.onError oid cConnectionError] ++ o2)
+        else (st'.unregister sid, [.onError oid cConnectionError] ++ o2)
+      else (st.unregister sid, o2)
+    | .chResp => (st.unregister sid, if s.hasPub then [.pubCancel oid] else [])
 
 def stopAll (st : State) : List (Nat × Nat) → State × List Out
   | [] => (st, [])
